@@ -197,6 +197,7 @@ func NewService(cfg Config) (Service, error) {
 		dbft.WithVerifyPrepareResponse[util.Uint256](srv.verifyResponse),
 		dbft.WithVerifyCommit[util.Uint256](srv.verifyCommit),
 	}
+	opts = verifOpts(opts)
 	if srv.Chain.GetConfig().MaxTimePerBlock > 0 {
 		opts = append(opts,
 			dbft.WithMaxTimePerBlock[util.Uint256](srv.maxTimePerBlock),
@@ -416,6 +417,7 @@ events:
 		if latestBlock != nil {
 			s.handleChainBlock(latestBlock)
 		}
+		verifLoopIdle(s)
 	}
 drainLoop:
 	for {
